@@ -2,6 +2,7 @@ import EinxModel.Props.C08
 import EinxModel.Proofs.DenoteDefined
 import EinxModel.Proofs.DenoteReducePerm
 import EinxModel.Proofs.DenoteDot
+import EinxModel.Proofs.DenoteConcat
 /-!
 C08 (continued) — gaps of `Props/C08.lean` closed by work package c08.
 
@@ -15,9 +16,12 @@ C08 (continued) — gaps of `Props/C08.lean` closed by work package c08.
       `denoteId_regroup_input/_output` (the regrouping laws of `C08` on expressions, loop form)
 * (d) dot (executable loop form `Denote.denoteDot`): tie `denoteDot_fun_agree`; output permutation incl. definedness
       `denote_dot_permute_output`; parentheses on the output `denote_dot_regroup_output`
+* (c) concatenations: `denoteId_fun_agree_general` (loop form = functional form `Denote.denoteIdFunG` for *all* solved
+      expressions), `denoteId_rename_general` (consistent renaming, concatenations included)
 -/
 namespace Einx.C08b
 open Einx Einx.IR Einx.Denote Einx.C08
+open Einx.Order.Fresh (InjOn)
 
 /-! ### (a) The output-permuted operation is defined whenever the original one is -/
 
@@ -505,5 +509,46 @@ example :
         ∃ plan, planInstr [shapeOf eo] (.transpose 0 [2, 0, 1]) = .ok plan ∧ runPlan symAlg [T] plan = T' :=
   fun T h => denote_dot_permute_output _ _ _ [2, 0, 1] T (by decide +kernel) (by decide +kernel) (by decide +kernel)
     (by decide +kernel) rfl (by decide +kernel) h
+
+/-! ### (c) Concatenations: the tie, and consistent renaming -/
+
+/-- **Tie to `Denote/Expr.lean` for arbitrary solved expressions, concatenations included.**  The executable loop
+form `Denote.denoteId` (the one the driver runs and C01's validator compares with) equals the loop-free functional form
+`Denote.denoteIdFunG` (`Denote/Fun2.lean`): enumerate the concatenation-free views of inputs and outputs in einx's
+order, pair them, collect the entries of every pair and gather them per real output tensor.  No hypothesis. -/
+theorem denoteId_fun_agree_general (exprsIn exprsOut : List Expr) :
+    okOpt (denoteId exprsIn exprsOut) = denoteIdFunG exprsIn exprsOut :=
+  denoteId_eq_denoteIdFunG exprsIn exprsOut
+
+/-- **Consistent renaming leaves `id` unchanged, concatenations included** (executable loop form): it suffices that
+`ρ` is injective on the axis names in use.  (`C08.denoteId_rename` without its concatenation-free hypotheses.) -/
+theorem denoteId_rename_general {ρ : String → String} (exprsIn exprsOut : List Expr)
+    (hρ : InjOn ρ (Expr.namesL exprsIn ++ Expr.namesL exprsOut)) :
+    okOpt (denoteId (Expr.renameL ρ exprsIn) (Expr.renameL ρ exprsOut)) = okOpt (denoteId exprsIn exprsOut) := by
+  rw [denoteId_fun_agree_general, denoteId_fun_agree_general,
+    Expr.renameL_congr (ρ := ρ) (ρ' := extInj ρ (Expr.namesL exprsIn ++ Expr.namesL exprsOut)) exprsIn
+      (fun n hn => (extInj_agree ρ _ (List.mem_append_left _ hn)).symm),
+    Expr.renameL_congr (ρ := ρ) (ρ' := extInj ρ (Expr.namesL exprsIn ++ Expr.namesL exprsOut)) exprsOut
+      (fun n hn => (extInj_agree ρ _ (List.mem_append_right _ hn)).symm)]
+  exact denoteIdFunG_rename (extInj_injective hρ) exprsIn exprsOut
+
+/-- Non-vacuity: `a (b + c) -> (b + c) a` with a = 2, b = 1, c = 2 (a concatenation on both sides, equal lengths, a
+length-1 block): not concatenation-free, both forms are defined and equal, the result is a
+genuine rearrangement of the 6 elements, and the renaming law applies with the non-injective `collapseNames`. -/
+example :
+    let a := Expr.axis "a" 2; let b := Expr.axis "b" 1; let c := Expr.axis "c" 2
+    let ein := Expr.list [a, .concat [b, c]]; let eout := Expr.list [.concat [b, c], a]
+    Expr.concatFreeL [ein] = false ∧
+    (match okOpt (denoteId [ein] [eout]), denoteIdFunG [ein] [eout] with
+      | some [t], some [u] => Tensor.beq t u && t.shape == [3, 2] &&
+          Cell.beqL t.data [.src 0 0, .src 0 3, .src 0 1, .src 0 4, .src 0 2, .src 0 5]
+      | _, _ => false) = true := by
+  decide +kernel
+
+example :
+    let a := Expr.axis "a" 2; let b := Expr.axis "b" 1; let c := Expr.axis "c" 2
+    let ein := Expr.list [a, .concat [b, c]]; let eout := Expr.list [.concat [b, c], a]
+    okOpt (denoteId (Expr.renameL collapseNames [ein]) (Expr.renameL collapseNames [eout])) = okOpt (denoteId [ein] [eout]) :=
+  denoteId_rename_general _ _ (by unfold InjOn; decide +kernel)
 
 end Einx.C08b
